@@ -6,13 +6,13 @@ namespace Cat
 open St
 
 /-! exact results of the acknowledging helpers -/
-@[simp] theorem ackError_state (D : Desc) (s : St) : (ackError D s).state = .flushWait ∧ (ackError D s).writeStateAfter = .afterFlushReset := by
+@[simp] theorem ackError_state (D : Desc) (s : St) : (ackError D s).state = .flushWait ∧ (ackError D s).writeStateAfter = .reset := by
   simp [ackError, startFlush, After.toC]
-@[simp] theorem ackOk_state (D : Desc) (s : St) : (ackOk D s).state = .flushWait ∧ (ackOk D s).writeStateAfter = .afterFlushReset := by
+@[simp] theorem ackOk_state (D : Desc) (s : St) : (ackOk D s).state = .flushWait ∧ (ackOk D s).writeStateAfter = .reset := by
   simp [ackOk, startFlush, After.toC]
-@[simp] theorem startFlush_cmd_state (s : St) (a : After) : (startFlush s .cmd a).state = .flushWait ∧ (startFlush s .cmd a).writeStateAfter = a.toC := by
+@[simp] theorem startFlush_cmd_state (s : St) (a : After) : (startFlush s .cmd a).state = .flushWait ∧ (startFlush s .cmd a).writeStateAfter = a := by
   simp [startFlush]
-@[simp] theorem startFlushRaw_state (s : St) (a : After) : (startFlushRaw s a).state = .flushWait ∧ (startFlushRaw s a).writeStateAfter = a.toC := by
+@[simp] theorem startFlushRaw_state (s : St) (a : After) : (startFlushRaw s a).state = .flushWait ∧ (startFlushRaw s a).writeStateAfter = a := by
   simp [startFlushRaw]
 @[simp] theorem endError_cmd_state (D : Desc) (s : St) : (endError D s .cmd).state = .flushWait := by simp [endError]
 @[simp] theorem endOk_cmd_state (D : Desc) (s : St) : (endOk D s .cmd).state = .flushWait := by simp [endOk]
@@ -68,7 +68,7 @@ def cmdSucc (s : St) : List CState :=
   | .runLoop => [.runLoop, .flushWait, .hold, .printCmd]
   | .hold => [.hold, .flushWait]
   | .flushWait => if s.ustate = .flushWrite then [.flushWait] else [.flushWrite]
-  | .flushWrite => [.flushWrite, s.writeStateAfter]
+  | .flushWrite => [.flushWrite, s.writeStateAfter.toC]
   | .afterFlushReset => [.idle, .hold]
   | .afterFlushOk => [.flushWait]
   | .afterFlushFormatRead => [.flushWait, .formatReadArgs, .readLoop]
@@ -214,7 +214,7 @@ theorem graph_hold (D : Desc) (s : St) : (processHoldState D s).1.state ∈ [s.s
 theorem graph_wait (s : St) : (processIoWriteWait s).1.state = (if s.ustate = .flushWrite then s.state else .flushWrite) := by
   simp [processIoWriteWait]; crunch
 
-theorem graph_write (D : Desc) (s : St) (i : SvcIn) : (processIoWrite D s i).1.state ∈ [s.state, s.writeStateAfter] := by
+theorem graph_write (D : Desc) (s : St) (i : SvcIn) : (processIoWrite D s i).1.state ∈ [s.state, s.writeStateAfter.toC] := by
   simp [processIoWrite]; crunch
 
 theorem graph_printCmd (D : Desc) (s : St) : (printCmdList D s).state ∈ [s.state, .printCmd, .flushWait] := by
